@@ -69,9 +69,18 @@ def run_scripted(EoN, sim, case, draws, full):
 
 
 # ------------------------------------------------------------------ witness + driver line ----
-def merge_witness(case, hist, trans):
-    """one chronological log from the per-node histories: (t, node, old, new, src).  Events of different
-    nodes at the same instant have no order in the outputs: returns None then (not judged)."""
+def strict_rows(case, rows):
+    """the arrays' times start at tmin and increase strictly: then (Props/C10gen.v: the rows carry the times of the
+    run's log) no two events of the run share an instant and none is at tmin"""
+    if not isinstance(rows, list) or not rows: return False
+    ts = [F(t) for t, _ in rows]
+    return ts[0] == case['tmin'] and all(a < b for a, b in zip(ts, ts[1:]))
+
+
+def merge_witness(case, hist, trans, rows=None):
+    """one chronological log from the per-node histories: (t, node, old, new, src).  Events of different nodes at
+    the same instant have no order in the outputs: not judged (None) -- unless the plain arrays of the same draws show
+    that the run had no two events at one instant; then the histories must be mergeable, and are judged as they are."""
     evs = []
     for u in sorted(hist):
         h = hist[u]
@@ -79,7 +88,7 @@ def merge_witness(case, hist, trans):
         for (t0, s0), (t1, s1) in zip(h, h[1:]):
             evs.append((F(t1), u, s0, s1))
     times = [e[0] for e in evs]
-    if len(set(times)) != len(times) or any(t <= case['tmin'] for t in times):
+    if (len(set(times)) != len(times) or any(t <= case['tmin'] for t in times)) and not strict_rows(case, rows):
         return None, 'tie'
     evs.sort(key=lambda e: e[0])
     pending = list(trans) if isinstance(trans, list) else []
@@ -158,13 +167,12 @@ def judge(case, plain, full):
         if rows_ok_shape(prow, case): lines.append(('plain', genx_line(case, rows=prow)))
         else: notes['plain_rows'] = prow
     if full and full.get('status') == 'OK' and isinstance(full.get('trans'), list) and all(not isinstance(h, str) for h in full['hist'].values()):
-        wit, why = merge_witness(case, full['hist'], full['trans'])
+        wit, why = merge_witness(case, full['hist'], full['trans'], prow)
         if wit is None:
             notes['witness'] = why
         else:
-            strict = True
             rows = prow if (prow is not None and rows_ok_shape(prow, case)) else None
-            cons_ok = rows is not None and L.covers(case) and L.all_initial_in_rstat(case) and strict
+            cons_ok = rows is not None and L.covers(case) and L.all_initial_in_rstat(case) and strict_rows(case, rows)
             lines.append(('full', genx_line(case, rows=rows, hist=full['hist'], trans=full['trans'], wit=wit)))
             notes['cons_judged'] = cons_ok
             srows = full.get('srows')
@@ -317,13 +325,12 @@ def complex_line(CL, case, rows, hist=None):
     return ' '.join(t)
 
 
-def complex_full_ok(case, full):
-    """the hypotheses of C10gen_complex_summary_equals_arrays on the implementation's full-data output: return
-    statuses distinct and covering, no two events at the same instant, none at tmin"""
+def complex_full_ok(case, full, rows):
+    """the hypotheses of C10gen_complex_summary_equals_arrays: return statuses distinct and covering, and no two
+    events at the same instant, none at tmin (read off the plain arrays of the same draws)"""
     if not (set(range(case['ns'])) <= set(case['rs']) and len(set(case['rs'])) == len(case['rs'])): return False
     if not full or full.get('status') != 'OK' or any(isinstance(h, str) for h in full['hist'].values()): return False
-    times = [F(t) for h in full['hist'].values() for t, _ in h[1:]]
-    return len(set(times)) == len(times) and all(t > case['tmin'] for t in times)
+    return strict_rows(case, rows)
 
 
 def complex_part(run, EoN, sim, tier, per, pid='C04'):
@@ -360,7 +367,7 @@ def complex_part(run, EoN, sim, tier, per, pid='C04'):
         if pid == 'C10':
             if not (set(range(c['ns'])) <= set(c['rs']) and len(set(c['rs'])) == len(c['rs'])): continue
             full = CL.run_impl(EoN, sim, c, m['draws'], full=True)
-            if not complex_full_ok(c, full): continue
+            if not complex_full_ok(c, full, rows): continue
             hist = full['hist']
         lines.append(complex_line(CL, c, rows, hist)); idx.append((c, m['draws'], rows, hist))
     judged = rejected = nontrivial = 0
@@ -424,7 +431,7 @@ def replay(rp):
         if impl['status'] == 'EXC': return 1
         if impl['status'] != 'OK' or not isinstance(impl.get('rows'), list): return 0
         full = CL.run_impl(EoN, sim, case, draws, full=True)
-        hist = full['hist'] if complex_full_ok(case, full) else None
+        hist = full['hist'] if complex_full_ok(case, full, impl['rows']) else None
         v = parse_verdict(C.run_model([complex_line(CL, case, impl['rows'], hist)], COMP)[0])
         print('extracted checkers on the arrays%s:' % ('' if hist is None else ' and node histories'), v)
         return 1 if (v.get('traj') is False or (hist is not None and v.get('cons') is False)) else 0
